@@ -523,7 +523,13 @@ def _run_bfs(pi, part, tot, pool, seed, log):
 
 
 def parse_case(text):
-    return ast.literal_eval(text)
+    """a case from its repr (replay files).  Cases are literals, plus exact numbers (Fraction / Decimal) and infinities in a few parts"""
+    try:
+        return ast.literal_eval(text)
+    except (ValueError, SyntaxError):
+        from decimal import Decimal
+        from fractions import Fraction
+        return eval(text, {"__builtins__": {}}, {"Fraction": Fraction, "Decimal": Decimal, "inf": float("inf"), "nan": float("nan")})
 
 
 @contextlib.contextmanager
